@@ -277,11 +277,11 @@ class VectorSpline2D(BaseGridder):
         # Capture the data region to use as a default when gridding.
         self.region_ = get_region(coordinates[:2])
         if any(w is not None for w in weights):
-            weights = np.concatenate([i.ravel() for i in weights])
+            weights = np.concatenate([np.ravel(i) for i in weights])
         else:
             weights = None
         warn_weighted_exact_solution(self, weights)
-        data = np.concatenate([i.ravel() for i in data])
+        data = np.concatenate([np.ravel(i) for i in data])
         if self.force_coords is None:
             self.force_coords = tuple(i.copy() for i in n_1d_arrays(coordinates, n=2))
         jacobian = self.jacobian(coordinates[:2], self.force_coords)
